@@ -415,7 +415,15 @@ func c12Valid(r *Rng, w c12Writer) string {
 }
 
 func c12Content(r *Rng, w c12Writer) (string, string) {
-	switch p := r.Intn(100); {
+	p := r.Intn(100)
+	switch w.name {
+	case "EAN_13", "EAN_8", "UPC_A", "UPC_E", "ITF":
+		// fixed-shape symbologies: random contents almost never hit the success path
+		if p >= 52 && r.Chance(0.3) {
+			p = 10
+		}
+	}
+	switch {
 	case p < 4:
 		return "", "empty"
 	case p < 52:
